@@ -69,6 +69,9 @@ func newScen(c *fw.Case, opts gen.PkgOpts) *scen {
 	r := c.R
 	s := &scen{c: c, r: r, refs: map[string]*sim.Ref{}}
 	s.seg = uint64(2 + r.Intn(11))
+	if opts.MaxSeg >= 2 {
+		s.seg = uint64(2 + r.Intn(opts.MaxSeg-1))
+	}
 	opts.SegSize = s.seg
 	if opts.FSBProb > 0 && os.Getenv("VH_MODE") != "race" && r.Float64() < opts.FSBProb {
 		// a chain whose first streamable block is not 0 (process-wide setting of bstream: plain binaries only, reset by close)
